@@ -18,8 +18,9 @@ run by the per-step correspondence of the `editor` harness (records `ed key/sele
 and `ed cands` = the four candidate getters), from the implementation's own pre-state.
 
 Sections: 1 paging (all lists, page sizes, page indices) · 2 the current page is in range (invariant
-of every key / choice / jump / open step; F32: not of configuration calls while a list is open —
-refuted + partial) · 3 choosing · 4 completeness of a phrase list.
+of every operation: key / choice / jump / open step and — since the F32 repair, `revalidate_selecting` —
+option / layout / dictionary calls while a list is open: `page_in_range`, every history) · 3 choosing ·
+4 completeness of a phrase list; the highlighted range consists of syllables (`range_is_syllables`).
 -/
 namespace Chewing.C07
 open Chewing Chewing.C06
@@ -104,34 +105,50 @@ theorem opens_on_page_zero {sh sh' : Shared D L} {ev : KeyEvent} {s : Selecting}
     (enteringSyllableNext env sh ev = .ok (sh', .toState (.selecting s)) → s.pageNo = 0) :=
   ⟨opens0_enteringNext env sh ev sh' s, opens0_enteringSyllableNext env sh ev sh' s⟩
 
-/-- the operations that may change what is listed, or the page size, without touching the page number -/
-def Op.reconfigures {L : Type} : Op L → Bool
-  | .setOptions _ | .setLayout _ | .learn _ _ | .unlearn _ _ | .clearSyl => true
-  | _ => false
+/-- the layout's table of alternative syllables (`SyllableEditor::alt_syllables`, a constant table per
+    layout in every implementation) does not depend on the content of the phonetic buffer -/
+def ClearSylKeepsAlt : Prop := ∀ l c, env.altSyllables (env.clearSyl l) c = env.altSyllables l c
 
-def Editor.isSelecting (e : Editor D L) : Bool :=
-  match e.state with
-  | .selecting _ => true
-  | _ => false
+/-- `Editor::revalidate_selecting` — the last step of `set_editor_options`, `set_syllable_editor`,
+    `learn_phrase`, `unlearn_phrase` since the F32 repair — **establishes** the page invariant, whatever
+    the page number was before: afterwards no list is open, or the page is strictly below the page count -/
+theorem revalidate_in_range {e e' : Editor D L} (h : e.revalidate env = .ok e') :
+    ∀ s, e'.state = .selecting s → ∃ tp, Selecting.totalPage env s e'.shared = .ok tp ∧ s.pageNo < tp := by
+  unfold Editor.revalidate at h
+  split at h
+  · rename_i s0 hs0
+    split at h
+    · rename_i tp ht
+      split at h
+      · injection h with h; subst h; intro s hs; cases hs
+      · rename_i h0
+        have h0 : tp ≠ 0 := by simpa using h0
+        split at h
+        · injection h with h; subst h
+          intro s hs; injection hs with hs; subst hs
+          exact ⟨tp, ht, by show tp - 1 < tp; omega⟩
+        · rename_i hlt
+          injection h with h; subst h
+          intro s hs; rw [hs0] at hs; injection hs with hs; subst hs
+          exact ⟨tp, ht, by omega⟩
+    · cases h
+    · cases h
+  · rename_i hns
+    injection h with h; subst h
+    intro s hs; exact absurd hs (hns s)
 
-/-- **F32** (known finding): a configuration / dictionary call made *while a list is open* -/
-def KnownF32 (e : Editor D L) (op : Op L) : Prop := Editor.isSelecting e = true ∧ Op.reconfigures op = true
+theorem revalidate_pageInv {e e' : Editor D L} (h : e.revalidate env = .ok e') : e'.PageInv env := by
+  intro s hs tp ht
+  obtain ⟨tp', ht', hlt⟩ := revalidate_in_range env h s hs
+  rw [ht] at ht'; injection ht' with ht'; subst ht'
+  exact Or.inl hlt
 
-/-- one operation keeps the invariant unless it is an F32 step -/
-theorem page_in_range_op (hf : FlushKeepsLookups env) {e e' : Editor D L} {op : Op L}
-    (h : e.apply env op = .ok e') (hk : ¬ KnownF32 e op) (hi : e.PageInv env) : e'.PageInv env := by
-  have closed : ∀ x : Editor D L, Editor.isSelecting x = false → x.PageInv env := by
-    intro x hx s hs; unfold Editor.isSelecting at hx; rw [hs] at hx; cases hx
-  have leave : ∀ x : Editor D L, Editor.isSelecting x = false →
-      Editor.isSelecting (Editor.leaveIfEmpty env x) = false := by
-    intro x hx; unfold Editor.leaveIfEmpty; split
-    · rfl
-    · exact hx
-  have hns : Op.reconfigures op = true → Editor.isSelecting e = false := by
-    intro hr
-    cases hsel : Editor.isSelecting e with
-    | false => rfl
-    | true => exact absurd ⟨hsel, hr⟩ hk
+/-- **every operation keeps the invariant** — keys, choices, jumps, opening / closing, commit, reset, and
+    (since the F32 repair) the option / layout / dictionary calls, also while a list is open -/
+theorem page_in_range_op (hf : FlushKeepsLookups env) (hca : ClearSylKeepsAlt env) {e e' : Editor D L} {op : Op L}
+    (h : e.apply env op = .ok e') (hi : e.PageInv env) : e'.PageInv env := by
+  have closed : ∀ x : Editor D L, (∀ s, x.state ≠ .selecting s) → x.PageInv env := by
+    intro x hx s hs; exact absurd hs (hx s)
   cases op with
   | key ev =>
     simp only [Editor.apply] at h
@@ -165,7 +182,7 @@ theorem page_in_range_op (hf : FlushKeepsLookups env) {e e' : Editor D L} {op : 
     simp only [Editor.apply] at h; injection h with h; subst h
     unfold Editor.cancelSelecting
     split
-    · exact closed _ rfl
+    · exact closed _ (by intro s hs; cases hs)
     · exact hi
   | commit =>
     simp only [Editor.apply] at h
@@ -178,10 +195,10 @@ theorem page_in_range_op (hf : FlushKeepsLookups env) {e e' : Editor D L} {op : 
         exact hc.1
       split at h
       · simp only [Outcome.map] at h; injection h with h; subst h
-        exact closed _ (by unfold Editor.isSelecting; simp only [hent])
+        exact closed _ (by intro s hs; simp only [hent] at hs; cases hs)
       · simp [Outcome.map] at h
       · simp [Outcome.map] at h
-  | clear => simp only [Editor.apply] at h; injection h with h; subst h; exact closed _ rfl
+  | clear => simp only [Editor.apply] at h; injection h with h; subst h; exact closed _ (by intro s hs; cases hs)
   | ack =>
     simp only [Editor.apply] at h; injection h with h; subst h
     intro s hs
@@ -191,51 +208,84 @@ theorem page_in_range_op (hf : FlushKeepsLookups env) {e e' : Editor D L} {op : 
     intro s hs
     exact pageOk_congr env (sameList_of_fields env rfl rfl rfl) (hi s hs)
   | clearSyl =>
+    -- `clear_syllable_editor` does not revalidate: what is listed does not depend on the buffer's content
     simp only [Editor.apply] at h; injection h with h; subst h
-    exact closed _ (leave _ (hns rfl))
-  | setOptions o =>
-    simp only [Editor.apply] at h; injection h with h; subst h
-    exact closed _ (leave _ (hns rfl))
-  | setLayout l =>
-    simp only [Editor.apply] at h; injection h with h; subst h
-    exact closed _ (leave _ (hns rfl))
+    intro s hs
+    have hst : e.state = .selecting s := by
+      unfold Editor.clearSyllableEditor Editor.leaveIfEmpty at hs
+      split at hs
+      · cases hs
+      · exact hs
+    have hsh : (Editor.clearSyllableEditor env e).shared = { e.shared with syl := env.clearSyl e.shared.syl } := by
+      unfold Editor.clearSyllableEditor Editor.leaveIfEmpty; split <;> rfl
+    rw [hsh]
+    have hcand : Selecting.candidates env s { e.shared with syl := env.clearSyl e.shared.syl } =
+        Selecting.candidates env s e.shared := by
+      unfold Selecting.candidates
+      cases s.sel with
+      | phrase p =>
+        have hca' : ∀ l c, env.altSyllables (env.clearSyl l) c = env.altSyllables l c := hca
+        simp only; unfold PhraseSel.candidates; simp only [hca']
+      | symbol y => rfl
+      | special sym => rfl
+    intro tp ht
+    have ht' : Selecting.totalPage env s e.shared = .ok tp := by
+      unfold Selecting.totalPage at ht ⊢; rw [hcand] at ht; exact ht
+    rw [hcand]
+    exact hi s hst tp ht'
+  | setOptions o => exact revalidate_pageInv env h
+  | setLayout l => exact revalidate_pageInv env h
   | learn k p =>
     simp only [Editor.apply] at h
-    cases hr : Shared.learnPhrase env e.shared k p with
-    | ok x => rw [hr] at h; simp only [Outcome.map] at h; injection h with h; subst h
-              exact closed _ (hns rfl)
-    | panic p => rw [hr] at h; simp [Outcome.map] at h
-    | outOfFuel => rw [hr] at h; simp [Outcome.map] at h
-  | unlearn k p =>
-    simp only [Editor.apply] at h; injection h with h; subst h
-    exact closed _ (hns rfl)
-
-/-- a history without F32 steps -/
-def NoF32 : Editor D L → List (Op L) → Prop
-  | _, [] => True
-  | e, op :: ops => ¬ KnownF32 e op ∧ ∀ e', e.apply env op = .ok e' → NoF32 e' ops
+    split at h
+    · exact revalidate_pageInv env h
+    · cases h
+    · cases h
+  | unlearn k p => exact revalidate_pageInv env h
 
 /-- the full-strength claim: the page invariant survives every history -/
 def page_in_range_full : Prop :=
-  ∀ (D L : Type) (env : Env D L), FlushKeepsLookups env →
+  ∀ (D L : Type) (env : Env D L), FlushKeepsLookups env → ClearSylKeepsAlt env →
     ∀ (e e' : Editor D L) (ops : List (Op L)), e.PageInv env → e.run env ops = .ok e' → e'.PageInv env
 
-/-- **current page < page count (or nothing listed) in every state reached** by keys, choices, jumps,
-    opening / closing, commit, reset — and by configuration / dictionary calls made while no list is
-    open (`_partial`: histories without F32 steps) -/
-theorem page_in_range_partial (hf : FlushKeepsLookups env) (ops : List (Op L)) :
-    ∀ (e e' : Editor D L), e.PageInv env → NoF32 env e ops → e.run env ops = .ok e' → e'.PageInv env := by
-  induction ops with
-  | nil => intro e e' hi _ h; simp only [Editor.run] at h; injection h with h; subst h; exact hi
+/-- **current page < page count (or nothing listed) in every state reached by ANY history** of keys,
+    choices, jumps, opening / closing, commit, reset, option / layout / engine / dictionary calls — made
+    while a list is open or not (before the F32 repair: `page_in_range_partial`, histories without such a
+    call under an open list, and `page_in_range_refuted`) -/
+theorem page_in_range : page_in_range_full := by
+  intro D L env hf hca e e' ops
+  induction ops generalizing e with
+  | nil => intro hi h; simp only [Editor.run] at h; injection h with h; subst h; exact hi
   | cons op ops ih =>
-    intro e e' hi hn h
+    intro hi h
     simp only [Editor.run] at h
     cases hr : e.apply env op with
     | ok e1 =>
       rw [hr] at h; simp only at h
-      exact ih e1 e' (page_in_range_op env hf hr hn.1 hi) (hn.2 e1 hr) h
+      exact ih e1 (page_in_range_op env hf hca hr hi) h
     | panic p => rw [hr] at h; cases h
     | outOfFuel => rw [hr] at h; cases h
+
+/-- the operations that may change what is listed, or the page size -/
+def Op.reconfigures {L : Type} : Op L → Bool
+  | .setOptions _ | .setLayout _ | .learn _ _ | .unlearn _ _ => true
+  | _ => false
+
+/-- **after an option / layout / dictionary call** a list that is still open is not empty and its page is
+    strictly below the page count (no "or nothing listed": a list that became empty was closed) -/
+theorem reconfigured_list_in_range {e e' : Editor D L} {op : Op L} (hop : Op.reconfigures op = true)
+    (h : e.apply env op = .ok e') :
+    ∀ s, e'.state = .selecting s → ∃ tp, Selecting.totalPage env s e'.shared = .ok tp ∧ s.pageNo < tp := by
+  cases op <;> simp only [Op.reconfigures] at hop <;> try cases hop
+  case setOptions o => exact revalidate_in_range env h
+  case setLayout l => exact revalidate_in_range env h
+  case unlearn k p => exact revalidate_in_range env h
+  case learn k p =>
+    simp only [Editor.apply] at h
+    split at h
+    · exact revalidate_in_range env h
+    · cases h
+    · cases h
 
 /-- a freshly created editor satisfies the invariant (no list open) -/
 theorem page_inv_init (sh : Shared D L) : Editor.PageInv env { shared := sh, state := .entering } := by
@@ -260,7 +310,7 @@ theorem init_range {fw : Bool} {st : Strategy} {com : Composition} {cur : Nat} {
     p.begin_ < p.end_ ∧ p.end_ ≤ p.com.len ∧ p.com = com ∧
     PhraseSel.rangeHasPhrase env p d p.begin_ p.end_ = .ok true := init_ok env h
 
-/-! ### F32: the witness -/
+/-! ### F32 (repaired): the former witness -/
 
 /-- two words for syllable 1, nothing else -/
 def f32Env : Env Unit Nat :=
@@ -277,24 +327,49 @@ def f32Ops : List (Op Nat) :=
   [.startSelecting, .key { index := 55, code := KC.right, unicode := 65533 },
    .setOptions { candidatesPerPage := 10 }]
 
-theorem f32_witness :
+/-- **F32 repaired** (was `f32_witness` / `page_in_range_refuted`: page 1 of 1 page, nothing enumerable):
+    after `chewing_set_candPerPage(10)` on page 1 of a two-candidate list the list is on its only page 0
+    and both candidates are enumerated -/
+theorem f32_history_repaired :
     ∃ (e' : Editor Unit Nat) (s : Selecting),
-      f32Start.run f32Env f32Ops = .ok e' ∧ e'.state = .selecting s ∧ s.pageNo = 1 ∧
+      f32Start.run f32Env f32Ops = .ok e' ∧ e'.state = .selecting s ∧ s.pageNo = 0 ∧
       Selecting.totalPage f32Env s e'.shared = .ok 1 ∧
-      Selecting.candidates f32Env s e'.shared = .ok [[28204], [31574]] :=
-  ⟨_, _, rfl, rfl, rfl, rfl, rfl⟩
+      CApi.enumerate f32Env e' = .ok [[28204], [31574]] ∧ e'.PageInv f32Env := by
+  refine ⟨_, _, rfl, rfl, rfl, rfl, rfl, ?_⟩
+  exact page_in_range Unit Nat f32Env (fun _ _ _ => rfl) (fun _ _ => rfl) f32Start _ f32Ops (page_inv_init f32Env _) rfl
 
-/-- the step that breaks the invariant is an F32 step -/
-theorem f32_is_known : ∃ e1, f32Start.run f32Env (f32Ops.take 2) = .ok e1 ∧
-    KnownF32 e1 (.setOptions { candidatesPerPage := 10 } : Op Nat) := ⟨_, rfl, rfl, rfl⟩
+/-- a dictionary that holds one two-syllable user phrase (besides a word per syllable) until it is removed -/
+def f32EnvB : Env Bool Nat where
+  lookupAll d k _ := if k = [1] then [⟨[28204], 1, none⟩] else if k = [2] then [⟨[35430], 1, none⟩]
+    else if k = [1, 2] ∧ d then [⟨[28204, 35430], 1, none⟩] else []
+  userLookupAll d k _ := if k = [1, 2] ∧ d then [⟨[28204, 35430], 1, none⟩] else []
+  addPhrase _ _ _ := some true
+  updatePhrase d _ _ _ _ := d
+  removePhrase _ _ _ := false
+  reopenFlush d := d
+  convert _ _ _ := .ok [[]]
+  estimate _ f _ := .ok f
+  keyPress l _ := (.keyError, l)
+  fuzzyKeyPress l _ := (.keyError, l)
+  removeLast _ := 0
+  clearSyl _ := 0
+  sylIsEmpty l := l == 0
+  read l := l
+  altSyllables _ _ := []
 
-theorem page_in_range_refuted : ¬ page_in_range_full := by
-  intro h
-  obtain ⟨e', s, hrun, hs, hp, htp, hc⟩ := f32_witness
-  have hinv := h Unit Nat f32Env (fun _ _ _ => rfl) f32Start e' f32Ops (page_inv_init f32Env _) hrun s hs 1 htp
-  rcases hinv with h1 | h1
-  · omega
-  · rw [hc] at h1; cases h1
+/-- **the other half of F32 repaired**: `chewing_userphrase_remove` of the only phrase of the highlighted
+    range (two syllables, list opened at the end of the buffer, rearward) used to leave an open list with 0
+    candidates, 0 pages, page 0; now the list is closed and the saved cursor restored -/
+theorem f32_empty_list_closed :
+    ∃ (e1 e' : Editor Bool Nat) (s : Selecting),
+      let start : Editor Bool Nat :=
+        { shared := { syl := 0, dict := true, options := { phraseChoiceRearward := true },
+                      com := { cursor := 2, inner := { symbols := [.syl 1, .syl 2], gaps := [.begin, .normal] } } } }
+      start.run f32EnvB [.startSelecting] = .ok e1 ∧ e1.state = .selecting s ∧
+      Selecting.candidates f32EnvB s e1.shared = .ok [[28204, 35430]] ∧
+      e1.run f32EnvB [.unlearn [1, 2] [28204, 35430]] = .ok e' ∧ e'.state = .entering ∧
+      e'.shared.com.cursor = 2 ∧ e'.shared.com.stack = [] :=
+  ⟨_, _, _, rfl, rfl, rfl, rfl, rfl, rfl, rfl⟩
 
 /-! ## 3. Choosing -/
 
@@ -486,19 +561,34 @@ theorem phrase_list_complete {p : PhraseSel} {d : D} {l : L} {key : List Nat} {c
     intro ph hph; rw [← hc]
     exact List.mem_map_of_mem hph
 
-/-! ### the highlighted range is made of syllables (F40 repaired) -/
+/-! ### the highlighted range is made of syllables (F40 repaired; an invariant of every operation) -/
 
-/-- the full-strength claim behind "exactly the highlighted syllables": in every state reached by a
-    history, the range of an open phrase list consists of syllables.  NOT proved in this generality (and
-    no longer refuted): see `range_is_syllables_partial` for what is proved and for the gap. -/
-def range_is_syllables_full : Prop :=
+/-- the hypothesis-free form of the claim (every environment, every initial shared state, no exclusion): in
+    every state reached by a history that returns, the range of an open phrase list consists of syllables.
+    Stronger than the property needs (it also speaks about environments whose dictionary breaks its own
+    contract and about the recorded class F02/F03 of C01); neither proved nor refuted. -/
+def range_is_syllables_unconditional : Prop :=
   ∀ (D L : Type) (env : Env D L) (e e' : Editor D L) (ops : List (Op L)) (s : Selecting) (p : PhraseSel),
     e.state = .entering → e.run env ops = .ok e' → e'.state = .selecting s → s.sel = .phrase p →
     ∃ key, RangeIs p key
 
+/-- **the claim behind "exactly the highlighted syllables"**: for every environment satisfying C01's explicit
+    hypotheses `EnvOK`, from every state satisfying the reachable-state invariant (`C01.initial_inv`: a fresh
+    editor does), after EVERY history of valid public operations outside C01's recorded class F02/F03
+    (`C01.Allowed`) — keys in all states incl. Down / Space cycling through the ranges, `select(n)`,
+    start / cancel selecting, commit, reset, option / layout / engine / dictionary calls, and the four
+    `jump_to_*_selection_point` calls while a phrase list is open — the range of an open phrase list is a
+    non-empty run of syllables inside the selector's buffer, which is the editor's buffer -/
+def range_is_syllables_full : Prop :=
+  ∀ (D L : Type) (env : Env D L) (G : D → Prop), C01.EnvOK env G →
+    ∀ (e e' : Editor D L), C01.EditorInv env G e → ∀ (ops : List (Op L)), C01.Allowed env e ops →
+    ∀ (s : Selecting) (p : PhraseSel), e.run env ops = .ok e' → e'.state = .selecting s → s.sel = .phrase p →
+    p.begin_ < p.end_ ∧ p.end_ ≤ p.com.symbols.length ∧ C04.AllSyl p.com p.begin_ p.end_ ∧
+    p.com = e'.shared.com.inner ∧ ∃ key, RangeIs p key ∧ key.length = p.end_ - p.begin_
+
 /-- a run of syllables inside the buffer is a `RangeIs` range -/
 theorem rangeIs_of_allSyl {p : PhraseSel} (hlt : p.begin_ < p.end_) (hle : p.end_ ≤ p.com.symbols.length)
-    (hsyl : C04.AllSyl p.com p.begin_ p.end_) : ∃ key, RangeIs p key := by
+    (hsyl : C04.AllSyl p.com p.begin_ p.end_) : ∃ key, RangeIs p key ∧ key.length = p.end_ - p.begin_ := by
   have hall : ∀ (l : List Sym), (∀ i, i < l.length → ∃ k, l[i]? = some (Sym.syl k)) → ∃ key : List Nat, l = key.map Sym.syl := by
     intro l
     induction l with
@@ -518,34 +608,35 @@ theorem rangeIs_of_allSyl {p : PhraseSel} (hlt : p.begin_ < p.end_) (hle : p.end
     refine ⟨k, ?_⟩
     rw [List.getElem?_take_of_lt (by omega), List.getElem?_drop]
     exact hk)
-  refine ⟨key, ?_⟩
-  unfold RangeIs sliceSyms
-  rw [if_neg (by omega), if_neg (by omega), hkey]
+  refine ⟨key, ?_, ?_⟩
+  · unfold RangeIs sliceSyms
+    rw [if_neg (by omega), if_neg (by omega), hkey]
+  · have := congrArg List.length hkey
+    simp only [List.length_take, List.length_drop, List.length_map] at this
+    omega
 
-/-- **the range of an open phrase list consists of syllables** — `_partial`: for every environment
-    satisfying C01's explicit hypotheses `EnvOK`, from every state satisfying C01's reachable-state
-    invariant (`C01.initial_inv`: a fresh editor does), after every history C01's theorem covers
-    (`C01.Allowed`: every key event in every state, `select(n)`, start / cancel selecting, commit, reset,
-    option / layout / engine / dictionary calls — minus the recorded class F02/F03 of C01, and minus
-    `jump_to_*_selection_point` **while a phrase list is open**, the one corner C01's invariant does not
-    cover yet).  That corner is where finding F40/F41 lived (`chewing_cand_list_first` on the simple
-    engine's single-word list swallowed the following non-syllable symbol); it was repaired by
-    `fix: init_single_word remembers the position of the word` — `f40_history_repaired` below evaluates
-    the former witness history — and stays covered by the correspondence and by the oracle (any range
-    with a non-syllable is reported as `new`). -/
-theorem range_is_syllables_partial {D L : Type} {env : Env D L} {G : D → Prop} (hE : C01.EnvOK env G)
-    (e e' : Editor D L) (hi : C01.EditorInv env G e) (ops : List (Op L)) (ha : C01.Allowed env e ops)
-    (s : Selecting) (p : PhraseSel)
-    (hrun : e.run env ops = .ok e') (hs : e'.state = .selecting s) (hsel : s.sel = .phrase p) :
-    ∃ key, RangeIs p key := by
-  obtain ⟨e'', hrun', hi'⟩ := C01.C01_partial_run hE ops e hi ha
-  have : e'' = e' := C01.ok_unique hrun' hrun
-  subst this
-  have hst := hi'.st
+/-- in a state satisfying C01's invariant the range of an open phrase list is a run of syllables -/
+theorem range_of_inv {D L : Type} {env : Env D L} {G : D → Prop} {e : Editor D L} (hi : C01.EditorInv env G e)
+    {s : Selecting} {p : PhraseSel} (hs : e.state = .selecting s) (hsel : s.sel = .phrase p) :
+    p.begin_ < p.end_ ∧ p.end_ ≤ p.com.symbols.length ∧ C04.AllSyl p.com p.begin_ p.end_ ∧
+    p.com = e.shared.com.inner ∧ ∃ key, RangeIs p key ∧ key.length = p.end_ - p.begin_ := by
+  have hst := hi.st
   rw [hs] at hst
   have hp := hst.sel
   rw [hsel] at hp
-  exact rangeIs_of_allSyl hp.lt hp.le hp.syl
+  exact ⟨hp.lt, hp.le, hp.syl, hp.com, rangeIs_of_allSyl hp.lt hp.le hp.syl⟩
+
+/-- **the range of an open phrase list consists of syllables, in every state reached** (the full claim;
+    before C01's proofs covered the jumps this was `range_is_syllables_partial`, which excluded
+    `jump_to_*_selection_point` on an open phrase list — the corner where finding F40/F41 lived: repaired
+    by `fix: init_single_word remembers the position of the word`, `f40_history_repaired` below evaluates
+    the former witness history; the oracle reports any range with a non-syllable as `new`) -/
+theorem range_is_syllables : range_is_syllables_full := by
+  intro D L env G hE e e' hi ops ha s p hrun hs hsel
+  obtain ⟨e'', hrun', hi'⟩ := C01.C01_partial_run hE ops e hi ha
+  have : e'' = e' := C01.ok_unique hrun' hrun
+  subst this
+  exact range_of_inv hi' hs hsel
 
 /-- a layout whose keys 32, Space spell syllable 1; one word for it -/
 def f40Env : Env Unit Nat :=
@@ -574,15 +665,156 @@ theorem f40_history_repaired :
       Selecting.candidates f40Env s e'.shared = .ok [[28204]] :=
   ⟨_, _, _, rfl, rfl, rfl, rfl, rfl, rfl, rfl, rfl⟩
 
-/-- `_partial`: whenever the range *is* made of syllables — which `phrase_list_complete` takes as its
-    premise `RangeIs` — the list is complete; the premise holds right after every opening by Down /
-    Space / `chewing_cand_open` for the first symbol (`init_range`: the dictionary has a phrase for the
-    leading syllables of a non-empty range), and is checked on every step of every generated history
-    by the oracle (no exception observed since the F40 repair); `range_is_syllables_partial` proves it
-    for the histories C01's invariant covers -/
-theorem phrase_list_complete_partial {p : PhraseSel} {d : D} {l : L} {key : List Nat} {cs : List Text}
-    (hr : RangeIs p key) (hc : PhraseSel.candidates env p d l = .ok cs) :
-    ∀ ph ∈ env.lookupAll d key p.strategy, ph.text ∈ cs := (phrase_list_complete env hr hc).2.2
+/-- **a phrase list is complete — without the premise `RangeIs`**: in every state satisfying C01's
+    reachable-state invariant (hence, by `range_is_syllables` / `C01_partial_run`, in every state reached by
+    a history outside C01's recorded class) the highlighted symbols ARE syllables `key`, one per position of
+    the range, and the list is exactly the dictionary's answer for `key`, in order — followed, for a single
+    syllable, by the answers for the layout's alternative syllables -/
+theorem open_phrase_list_complete {D L : Type} {env : Env D L} {G : D → Prop} {e : Editor D L}
+    (hi : C01.EditorInv env G e) {s : Selecting} {p : PhraseSel} {cs : List Text}
+    (hs : e.state = .selecting s) (hsel : s.sel = .phrase p) (hc : Selecting.candidates env s e.shared = .ok cs) :
+    ∃ key, RangeIs p key ∧ key.length = p.end_ - p.begin_ ∧
+      (p.end_ - p.begin_ ≠ 1 → cs = (env.lookupAll e.shared.dict key p.strategy).map (·.text)) ∧
+      (p.end_ - p.begin_ = 1 → ∃ c, p.com.symbol? p.begin_ = some (.syl c) ∧
+        cs = (env.lookupAll e.shared.dict key p.strategy).map (·.text) ++
+             (env.altSyllables e.shared.syl c).flatMap fun a => (env.lookupAll e.shared.dict [a] p.strategy).map (·.text)) ∧
+      (∀ ph ∈ env.lookupAll e.shared.dict key p.strategy, ph.text ∈ cs) := by
+  obtain ⟨_, _, _, _, key, hr, hlen⟩ := range_of_inv hi hs hsel
+  have hc' : PhraseSel.candidates env p e.shared.dict e.shared.syl = .ok cs := by
+    unfold Selecting.candidates at hc; rw [hsel] at hc; exact hc
+  exact ⟨key, hr, hlen, phrase_list_complete env hr hc'⟩
+
+/-- … over histories: every open phrase list reached is complete -/
+theorem phrase_list_complete_reached {D L : Type} {env : Env D L} {G : D → Prop} (hE : C01.EnvOK env G)
+    (e e' : Editor D L) (hi : C01.EditorInv env G e) (ops : List (Op L)) (ha : C01.Allowed env e ops)
+    {s : Selecting} {p : PhraseSel} {cs : List Text}
+    (hrun : e.run env ops = .ok e') (hs : e'.state = .selecting s) (hsel : s.sel = .phrase p)
+    (hc : Selecting.candidates env s e'.shared = .ok cs) :
+    ∃ key, RangeIs p key ∧ key.length = p.end_ - p.begin_ ∧
+      ∀ ph ∈ env.lookupAll e'.shared.dict key p.strategy, ph.text ∈ cs := by
+  obtain ⟨e'', hrun', hi'⟩ := C01.C01_partial_run hE ops e hi ha
+  have : e'' = e' := C01.ok_unique hrun' hrun
+  subst this
+  obtain ⟨key, h1, h2, _, _, h5⟩ := open_phrase_list_complete hi' hs hsel hc
+  exact ⟨key, h1, h2, h5⟩
+
+/-! ### the opened range is the longest one with a phrase; the selector loops terminate -/
+
+/-- the range query reads the selector's buffer and strategy only -/
+theorem rangeHasPhrase_range (s : PhraseSel) (d : D) (b e x y : Nat) :
+    PhraseSel.rangeHasPhrase env { s with begin_ := x, end_ := y } d b e = PhraseSel.rangeHasPhrase env s d b e := rfl
+
+/-- the shrinking loop of `PhraseSelector::init` stops at the FIRST range that has a phrase: choosing
+    forward it keeps the beginning and every longer range up to the initial end has none; choosing rearward
+    it keeps the end and every longer range down to the initial beginning has none -/
+theorem initLoop_longest (d : D) : ∀ (fuel : Nat) (s s' : PhraseSel), PhraseSel.initLoop env s d fuel = .ok s' →
+    (s.forward = true → s'.begin_ = s.begin_ ∧
+      ∀ e', s'.end_ < e' → e' ≤ s.end_ → PhraseSel.rangeHasPhrase env s d s.begin_ e' = .ok false) ∧
+    (s.forward = false → s'.end_ = s.end_ ∧
+      ∀ b', s.begin_ ≤ b' → b' < s'.begin_ → PhraseSel.rangeHasPhrase env s d b' s.end_ = .ok false) := by
+  intro fuel
+  induction fuel with
+  | zero => intro s s' h; simp [PhraseSel.initLoop] at h
+  | succ fuel ih =>
+    intro s s' h
+    unfold PhraseSel.initLoop at h
+    split at h
+    · cases h
+    · split at h
+      · cases h
+      · split at h
+        · cases h
+        · rename_i h1 h2 h3
+          have hne : s.begin_ ≠ s.end_ := by simpa using h3
+          split at h
+          · injection h with h; subst h
+            exact ⟨fun _ => ⟨rfl, fun e' a b => by omega⟩, fun _ => ⟨rfl, fun b' a b => by omega⟩⟩
+          · rename_i hfalse
+            split at h
+            · rename_i hfw
+              obtain ⟨ihf, _⟩ := ih _ _ h
+              obtain ⟨hb, hall⟩ := ihf hfw
+              refine ⟨fun _ => ⟨hb, ?_⟩, fun hh => by rw [hfw] at hh; cases hh⟩
+              intro e' a b
+              rcases Nat.lt_or_ge e' s.end_ with hlt | hge
+              · exact hall e' a (by show e' ≤ s.end_ - 1; omega)
+              · have : e' = s.end_ := by omega
+                subst this; exact hfalse
+            · rename_i hfw
+              have hfw' : s.forward = false := by cases hx : s.forward <;> simp_all
+              obtain ⟨_, ihr⟩ := ih _ _ h
+              obtain ⟨he, hall⟩ := ihr hfw'
+              refine ⟨fun hh => absurd hh hfw, fun _ => ⟨he, ?_⟩⟩
+              intro b' a b
+              rcases Nat.lt_or_ge s.begin_ b' with hlt | hge
+              · exact hall b' (by show s.begin_ + 1 ≤ b'; omega) b
+              · have : b' = s.begin_ := by omega
+                subst this; exact hfalse
+          · cases h
+          · cases h
+
+/-- **the range a phrase list is opened with** (Down / Space / `chewing_cand_open`, `j` / `k`,
+    `chewing_cand_list_first`: `PhraseSelector::init`) **is the longest one at the cursor that has a
+    phrase**: it has a phrase (`init_range`), and — choosing forward — it starts at the cursor and no longer
+    range up to the next break point has one; choosing rearward it ends after the cursor and no longer range
+    down to the previous break point has one.  (Shorter ranges follow with Down / Space.)  For every
+    environment; what the oracle's check D evaluates on the real editor. -/
+theorem opened_range_longest {fw : Bool} {st : Strategy} {com : Composition} {cur : Nat} {d : D} {p : PhraseSel}
+    (h : PhraseSel.init env fw st com cur d = .ok p) :
+    (fw = true → p.begin_ = (if cur == com.len then cur - 1 else cur) ∧
+      ∀ e', p.end_ < e' → e' ≤ p.nextBreakPoint cur → PhraseSel.rangeHasPhrase env p d p.begin_ e' = .ok false) ∧
+    (fw = false → p.end_ = min (cur + 1) com.len ∧
+      ∀ b', p.afterPreviousBreakPoint cur ≤ b' → b' < p.begin_ → PhraseSel.rangeHasPhrase env p d b' p.end_ = .ok false) := by
+  unfold PhraseSel.init at h
+  simp only at h
+  split at h
+  · rename_i hfw
+    split at h
+    · cases h
+    · obtain ⟨_, _, hcom, hstr, _, _, _⟩ := initLoop_ok env d _ _ _ h
+      obtain ⟨hf, _⟩ := initLoop_longest env d _ _ _ h
+      obtain ⟨hb, hall⟩ := hf hfw
+      refine ⟨fun _ => ⟨hb, ?_⟩, fun hh => by rw [hfw] at hh; cases hh⟩
+      intro e' a b
+      have key : ∀ (q : PhraseSel), q.com = com → q.strategy = st → ∀ x y, PhraseSel.rangeHasPhrase env q d x y =
+          PhraseSel.rangeHasPhrase env { begin_ := 0, end_ := com.len, forward := fw, orig := cur, strategy := st, com := com } d x y := by
+        intro q hq1 hq2 x y; unfold PhraseSel.rangeHasPhrase; rw [hq1, hq2]
+      have hnb : ∀ (q : PhraseSel), q.com = com → ∀ c, q.nextBreakPoint c =
+          PhraseSel.nextBreakPoint { begin_ := 0, end_ := com.len, forward := fw, orig := cur, strategy := st, com := com } c := by
+        intro q hq c
+        have : ∀ fuel c, PhraseSel.nextBreakPoint.go q fuel c =
+            PhraseSel.nextBreakPoint.go { begin_ := 0, end_ := com.len, forward := fw, orig := cur, strategy := st, com := com } fuel c := by
+          intro fuel; induction fuel with
+          | zero => intro c; rfl
+          | succ f ih => intro c; simp only [PhraseSel.nextBreakPoint.go, hq, ih]
+        unfold PhraseSel.nextBreakPoint; rw [this, hq]
+      rw [key p hcom hstr, hb]
+      have := hall e' a (by rw [hnb p hcom] at b; exact b)
+      rw [key _ rfl rfl] at this
+      exact this
+  · rename_i hfw
+    have hfw' : fw = false := by cases fw <;> simp_all
+    obtain ⟨_, _, hcom, hstr, _, _, _⟩ := initLoop_ok env d _ _ _ h
+    obtain ⟨_, hr⟩ := initLoop_longest env d _ _ _ h
+    obtain ⟨he, hall⟩ := hr hfw'
+    refine ⟨(fun hh => by rw [hfw'] at hh; cases hh), fun _ => ⟨he, ?_⟩⟩
+    intro b' a b
+    have key : ∀ (q : PhraseSel), q.com = com → q.strategy = st → ∀ x y, PhraseSel.rangeHasPhrase env q d x y =
+        PhraseSel.rangeHasPhrase env { begin_ := 0, end_ := com.len, forward := fw, orig := cur, strategy := st, com := com } d x y := by
+      intro q hq1 hq2 x y; unfold PhraseSel.rangeHasPhrase; rw [hq1, hq2]
+    have hap : ∀ (q : PhraseSel), q.com = com → ∀ c, q.afterPreviousBreakPoint c =
+        PhraseSel.afterPreviousBreakPoint { begin_ := 0, end_ := com.len, forward := fw, orig := cur, strategy := st, com := com } c := by
+      intro q hq c
+      have : ∀ fuel c, PhraseSel.afterPreviousBreakPoint.go q fuel c =
+          PhraseSel.afterPreviousBreakPoint.go { begin_ := 0, end_ := com.len, forward := fw, orig := cur, strategy := st, com := com } fuel c := by
+        intro fuel; induction fuel with
+        | zero => intro c; rfl
+        | succ f ih => intro c; simp only [PhraseSel.afterPreviousBreakPoint.go, hq, ih]
+      unfold PhraseSel.afterPreviousBreakPoint; rw [this]
+    rw [key p hcom hstr, he]
+    have := hall b' (by rw [hap p hcom] at a; exact a) b
+    rw [key _ rfl rfl] at this
+    exact this
 
 /-! ## non-vacuity -/
 
@@ -591,9 +823,7 @@ example : ∃ (e' : Editor Unit Nat) (s : Selecting),
     f32Start.run f32Env (f32Ops.take 2) = .ok e' ∧ e'.state = .selecting s ∧ s.pageNo = 1 ∧
     Selecting.totalPage f32Env s e'.shared = .ok 2 ∧ e'.PageInv f32Env := by
   refine ⟨_, _, rfl, rfl, rfl, rfl, ?_⟩
-  apply page_in_range_partial f32Env (fun _ _ _ => rfl) (f32Ops.take 2) f32Start _ (page_inv_init f32Env _) _ rfl
-  refine ⟨fun hk => absurd hk.2 (by decide), fun e1 h1 => ⟨?_, fun _ _ => trivial⟩⟩
-  intro hk; exact absurd hk.2 (by decide)
+  exact page_in_range Unit Nat f32Env (fun _ _ _ => rfl) (fun _ _ => rfl) f32Start _ (f32Ops.take 2) (page_inv_init f32Env _) rfl
 
 /-- choosing index 0 on page 1 (per page 1) of that list places the second word -/
 example : ∃ (e1 : Editor Unit Nat) (s : Selecting) (x : Selecting × Shared Unit Nat × Trans),
@@ -606,6 +836,35 @@ example : ∃ (e1 : Editor Unit Nat) (s : Selecting) (x : Selecting × Shared Un
 example : ∃ (e1 : Editor Unit Nat), f32Start.run f32Env (f32Ops.take 2) = .ok e1 ∧
     (e1.select f32Env 1).map (·.2) = .ok false ∧ (e1.select f32Env (2 ^ 64 - 1)).map (·.2) = .ok false ∧
     (e1.select f32Env 1).map (·.1.state) = .ok e1.state :=
+  ⟨_, rfl, rfl, rfl, rfl⟩
+
+/-- type a syllable twice, Home, open the list (`PhraseSelector::init` shrinks 0..2 to 0..1), the four jumps
+    (`prev_selection_point` searches up to the break point, `next_selection_point` / `jump_to_last` stop at
+    the one-syllable range), Down (`PhraseSelector::next` wraps around) -/
+def jumpOps : List (Op Nat) :=
+  [.key C01.keyJ, .key C01.keyJ, .key C01.keyJ, .key C01.keyJ, .key C01.keyHome,
+   .startSelecting, .jump 3, .jump 2, .jump 1, .jump 0, .key C01.keyDown]
+
+/-- `range_is_syllables` / `phrase_list_complete_reached` are not vacuous: C01's toy environment satisfies
+    `EnvOK`, a fresh editor the invariant, and the history `jumpOps` is allowed and leaves a phrase list open -/
+example : ∃ e' s p cs,
+    (C01.stdEditor [3]).run C01.toyEnv jumpOps = .ok e' ∧
+    e'.state = .selecting s ∧ s.sel = .phrase p ∧ Selecting.candidates C01.toyEnv s e'.shared = .ok cs ∧
+    (p.begin_, p.end_) = (0, 1) ∧ p.com.symbols = [.syl 3, .syl 3] ∧ cs = [[3]] ∧
+    (∃ key, RangeIs p key ∧ key.length = p.end_ - p.begin_ ∧
+      ∀ ph ∈ C01.toyEnv.lookupAll e'.shared.dict key p.strategy, ph.text ∈ cs) := by
+  refine ⟨_, _, _, _, rfl, rfl, rfl, rfl, rfl, rfl, rfl, ?_⟩
+  exact phrase_list_complete_reached C01.toyEnv_ok (C01.stdEditor [3]) _ (C01.stdEditor_inv [3]) jumpOps
+    (C01.allowed_of_plain jumpOps _ (by
+      intro op hop
+      simp only [jumpOps, List.mem_cons, List.not_mem_nil, or_false] at hop
+      rcases hop with rfl | rfl | rfl | rfl | rfl | rfl | rfl | rfl | rfl | rfl | rfl <;> trivial))
+    rfl rfl rfl rfl
+
+/-- `opened_range_longest` is not vacuous: two equal syllables, a word for the syllable but no two-syllable
+    phrase — `init` at position 0 (forward) answers 0..1, and the longer range 0..2 has no phrase -/
+example : ∃ p, PhraseSel.init f32Env true .standard { symbols := [.syl 1, .syl 1], gaps := [.begin, .normal] } 0 () = .ok p ∧
+    (p.begin_, p.end_) = (0, 1) ∧ p.nextBreakPoint 0 = 2 ∧ PhraseSel.rangeHasPhrase f32Env p () 0 2 = .ok false :=
   ⟨_, rfl, rfl, rfl, rfl⟩
 
 example : pageCount 7 3 = 3 ∧ pageItems [1, 2, 3, 4, 5, 6, 7] 3 2 = [7] ∧ pageCount 6 3 = 2 ∧ pageCount 0 3 = 0 := by decide
